@@ -24,11 +24,16 @@ def sample(s):
 def is_known(sig): return any(sig == k or (k.endswith("*") and sig.startswith(k[:-1])) for k in known)
 
 
-def tool(name, args, stdin=None, prov=None, timeout=120):
+def _low_fd_limit():
+    # the tools run with a small (legal) limit on open descriptors: a descriptor leaked per token or per key bounds "any number" of them
+    import resource
+    hard = resource.getrlimit(resource.RLIMIT_NOFILE)[1]; resource.setrlimit(resource.RLIMIT_NOFILE, (64, hard))
+
+def tool(name, args, stdin=None, prov=None, timeout=300):
     env = dict(ENV)
     if prov: env["JWT_CRYPTO"] = prov
-    r = subprocess.run([os.path.join(A.tools, name)] + args, input=stdin, stdout=subprocess.PIPE, stderr=subprocess.PIPE, env=env, timeout=timeout, cwd=WORK)
-    san = b"Sanitizer" in r.stderr or b"runtime error:" in r.stderr or r.returncode == 99
+    r = subprocess.run([os.path.join(A.tools, name)] + args, input=stdin, stdout=subprocess.PIPE, stderr=subprocess.PIPE, env=env, timeout=timeout, cwd=WORK, preexec_fn=_low_fd_limit)
+    san = b"Sanitizer" in r.stderr or b"runtime error:" in r.stderr   # (not the exit status: jwt-verify exits with the number of failing tokens, which can be any value)
     return r.returncode, r.stdout.decode(errors="replace"), r.stderr.decode(errors="replace"), san
 
 
@@ -108,7 +113,9 @@ def run_verify_case(case):
         goodpos.sort(key=lambda i: 0 if (i + 1) in bad_positions else 1)
         for j, i in enumerate(goodpos[: 1 + seedv % 4]):
             toks[i] = LONG_GOOD[(seedv // 4 + j) % len(LONG_GOOD)]; nlong += 1
-    args = ["-k", KEYS["hs"]["jwk_priv_alg"]] + (["-q"] if quiet else [])
+    vmode = case.get("vmode", 0)   # 0: plain / -q; 1: -v (decoded header and payload shown); 2: -v and -p CMD (shown through a command); 3: the long spellings of 2
+    args = ["-k", KEYS["hs"]["jwk_priv_alg"]] + (["-q"] if quiet and not vmode else []) + {0: [], 1: ["-v"], 2: ["-v", "-p", "cat"], 3: ["--verbose", "--print=cat"]}[vmode]
+    if vmode: cls("verify-lists-with-verbose/print")
     if how == "args": rc, out, err, san = tool("jwt-verify", args + toks)
     else: rc, out, err, san = tool("jwt-verify", args + ["-"], stdin=("\n".join(toks) + ("\n" if toks and not (seedv & 1) else "")).encode())   # last line with or without newline
     stats["evaluations"] += 1; cls("verify-lists"); cls("verify-tokens", n)
@@ -257,7 +264,7 @@ def run_property(fn, strategy, n, name):
 
 
 verify_cases = st.fixed_dictionaries({"n": st.one_of(st.sampled_from(LENS), st.integers(0, 1100)), "nbad": st.one_of(st.sampled_from([0, 0, 1, 2, 255, 256, 257, 511, 512, 513, 768, 1024]), st.integers(0, 1100)),
-                                      "how": st.sampled_from(["args", "stdin"]), "quiet": st.booleans(), "mix": st.integers(0, 1 << 30), "long": st.booleans()})
+                                      "how": st.sampled_from(["args", "stdin"]), "quiet": st.booleans(), "mix": st.integers(0, 1 << 30), "long": st.booleans(), "vmode": st.sampled_from([0, 0, 0, 1, 2, 3])})
 sty = st.integers(0, 3)
 def genver_cases():
     return st.fixed_dictionaries({"key": st.sampled_from(sorted(KEYS)), "key_has_alg": st.booleans(), "always_alg": st.booleans(), "prov": st.sampled_from(["openssl", "gnutls"]), "k_style_g": sty, "a_style_g": sty, "k_style_v": sty, "a_style_v": sty,
@@ -296,6 +303,11 @@ def main():
                     try: guarded(run_verify_case, case)
                     except AssertionError:
                         f = last.get("f"); stats["violations"].append({"signature": f.sig, "what": f.what, "replay": {"kind": "verify", "case": f.case}})
+    if A.worker in (8, 9, 10, 11):   # every token verifies and is shown through a command: 100 / 300 tokens, as arguments and on stdin
+        case = {"n": 100 if A.worker < 10 else 300, "nbad": 0, "how": "stdin" if A.worker & 1 else "args", "quiet": False, "mix": A.seed, "vmode": 2 + (A.worker & 1)}
+        try: guarded(run_verify_case, case)
+        except AssertionError:
+            f = last.get("f"); stats["violations"].append({"signature": f.sig, "what": f.what, "replay": {"kind": "verify", "case": f.case}})
     for li in range(len(LONG_GOOD)):
         if li % A.nworkers != A.worker: continue
         for tail in ([], [BAD[0]], [GOOD[0], BAD[1]]):
